@@ -27,7 +27,8 @@ CONSTANTS CliInit,      \* version the client starts with
           Window,       \* how many serials back the source keeps diffs
           CliStart,     \* "none" | "stale" | "foreign": what the client remembers at connect
           KeepLog,      \* TRUE: carry the behaviour in `log` (replay emission); FALSE for trace validation
-          Faults        \* TRUE: the transport may fail while a response is outstanding (ConnLost)
+          Faults,       \* TRUE: the transport may fail while a response is outstanding (ConnLost)
+          Crossing      \* TRUE: the source may notify just as the client's query goes out (NotifyCross)
 NoneV == 9
 \* payload items: <<kind, key, val>>; kind = minimum protocol version (0 origin, 1 router key, 2 ASPA)
 \* (an announced ASPA may have an empty provider set: <<2, "c1", 0>>; on the wire it differs from a withdrawal by the flag only)
@@ -157,7 +158,17 @@ ConnLost ==
     /\ phase' = "err"
     /\ Note([a |-> "lost", step |-> steps + 1, at |-> calls, state |-> cState, data |-> cData])
     /\ UNCHANGED <<hist, timing, connVer, resp, calls, cState, cVer, cData, cTiming, upd, reset, qkind, steps, eod>>
-Next == SrcUpdate \/ CliBegin \/ SrvQuery \/ SrvSendItem \/ SrvSendEod \/ CliApply \/ ConnLost
+\* The source notifies the server's connections just as the client's query goes out: the connection task finds a notification
+\* and a query waiting, takes the notification first (the receiver is polled before the socket) and writes a Serial Notify ahead
+\* of its response.  The client as implemented takes a Serial Notify where a response should start for a protocol error and the
+\* step fails (RtrPacing's crossing, here with data in play).  The statement speaks of steps that finish: what must never happen
+\* is a step that finishes with anything but the source's data (the harness asks that of any step that finishes here).
+NotifyCross ==
+    /\ Crossing /\ SrvMax >= 2 /\ phase = "query" /\ ~resp.open /\ calls = 0
+    /\ phase' = "err" /\ qkind' = "crossed"
+    /\ Note([a |-> "cross", step |-> steps + 1, state |-> cState, data |-> cData])
+    /\ UNCHANGED <<hist, timing, connVer, resp, calls, cState, cVer, cData, cTiming, upd, reset, steps, eod>>
+Next == SrcUpdate \/ CliBegin \/ SrvQuery \/ SrvSendItem \/ SrvSendEod \/ CliApply \/ ConnLost \/ NotifyCross
 Spec == Init /\ [][Next]_vars /\ WF_vars(CliBegin \/ SrvQuery \/ SrvSendItem \/ SrvSendEod \/ CliApply)
 
 \* ---- the property
